@@ -58,6 +58,7 @@ type c08Write struct {
 }
 type c08Input struct {
 	Mode     string       `json:"mode"` // api | raw
+	Early    bool         `json:"early,omitempty"`    // api mode: every version is committed as soon as it is made and the author then writes a bug through the API (all private keys at hand); these bugs must still read at the end
 	InPlace  bool         `json:"in_place,omitempty"` // api mode: a key change that keeps the number of keys rewrites Mutator.Keys in place and changes nothing else
 	Versions []c08Version `json:"versions"`
 	Probes   []c08Probe   `json:"probes"`
@@ -253,6 +254,7 @@ func c08ApiHistories(maxN int) []c08Input {
 				in.Probes = c08ProbesFor(in.Versions)
 				in.Writes = c08WritesFor(in.Versions)
 				in.InPlace = len(res)%2 == 1
+				in.Early = len(res)%4 >= 2 && n > 1
 				res = append(res, in)
 			}
 		}
@@ -329,6 +331,7 @@ func c08KeysOf(v c08Version) []*identity.Key {
 
 // c08BuildIdentity stores the history and returns the identity's id.
 func c08BuildIdentity(repo repository.ClockedRepo, in c08Input) (entity.Id, error) {
+	c08EarlyBugs = nil
 	if in.Mode == "raw" {
 		var last repository.Hash
 		var id entity.Id
@@ -368,7 +371,46 @@ func c08BuildIdentity(repo repository.ClockedRepo, in c08Input) (entity.Id, erro
 		return id, repo.UpdateRef("refs/identities/"+string(id), last)
 	}
 	var id *identity.Identity
+	c08EarlyBugs = nil
+	early := func(i int) error {
+		if !in.Early {
+			return nil
+		}
+		if id.NeedCommit() {
+			if err := id.Commit(repo); err != nil {
+				return err
+			}
+		}
+		kr := keyring.NewArrayKeyring(nil)
+		for k := 0; k < c08PoolSize; k++ {
+			if err := c08StorePrivate(kr, c08Keys()[k]); err != nil {
+				return err
+			}
+		}
+		wrepo := krRepo{TestedRepo: repo.(repository.TestedRepo), kr: kr}
+		wauthor, err := identity.ReadLocal(wrepo, id.Id())
+		if err != nil {
+			return err
+		}
+		b, _, err := bug.Create(wauthor, int64(1600003000+i), fmt.Sprintf("written under version %d", i), "message", nil, nil)
+		if err != nil {
+			return err
+		}
+		if err := b.Commit(wrepo); err != nil {
+			return err
+		}
+		if _, err := bug.Read(repo, b.Id()); err != nil {
+			return fmt.Errorf("a bug just written does not read: %v", err)
+		}
+		c08EarlyBugs = append(c08EarlyBugs, b.Id())
+		return nil
+	}
 	for i, v := range in.Versions {
+		if i > 0 {
+			if err := early(i - 1); err != nil {
+				return "", err
+			}
+		}
 		if v.T != nil {
 			if err := repo.Witness(c08Clock, lamport.Time(*v.T)); err != nil {
 				return "", err
@@ -399,8 +441,10 @@ func c08BuildIdentity(repo repository.ClockedRepo, in c08Input) (entity.Id, erro
 			return "", err
 		}
 	}
-	if err := id.Commit(repo); err != nil {
-		return "", err
+	if id.NeedCommit() {
+		if err := id.Commit(repo); err != nil {
+			return "", err
+		}
 	}
 	return id.Id(), nil
 }
@@ -545,6 +589,9 @@ func c08Unsorted(repo repository.ClockedRepo, gr *git.Repository, tree repositor
 	}
 	return repository.Hash(h.String()), nil
 }
+
+// c08EarlyBugs: the bugs the author wrote through the API under each version but the last (set per case)
+var c08EarlyBugs []entity.Id
 
 // c08Plain is an identity without keys (set per case by Run): it authors the root below an empty probe.
 var c08Plain identity.Interface
@@ -974,6 +1021,17 @@ func (c08Driver) Run(raw json.RawMessage) Case {
 		wobs = append(wobs, o)
 	}
 
+	// the bugs the author wrote under earlier versions must still read now that later versions exist
+	var earlyTerms []string
+	earlyObs := []string{}
+	for _, bid := range c08EarlyBugs {
+		v, msg := c08Read(repo, bid)
+		h, _ := repo.ResolveRef("refs/bugs/" + string(bid))
+		wc, _, _ := readCommitRaw(repo, h)
+		earlyTerms = append(earlyTerms, coqPair(coqN(wc.Edit), coqN(uint64(v))))
+		earlyObs = append(earlyObs, fmt.Sprintf("t=%d verdict=%d %s", wc.Edit, v, msg))
+	}
+
 	// ---- Coq term, tags ----
 	nlist := func(xs []int) string {
 		s := make([]string, len(xs))
@@ -1067,7 +1125,10 @@ func (c08Driver) Run(raw json.RawMessage) Case {
 		}
 		requested = coqSome(coqList(rs))
 	}
-	term := fmt.Sprintf("mkcase %s %s %s %s", coqList(vterms), requested, coqList(pterms), coqList(wterms))
-	obs := map[string]interface{}{"versions": vs, "probes": pobs, "writes": wobs}
+	if len(earlyTerms) > 0 {
+		tagset["early-writes"] = true
+	}
+	term := fmt.Sprintf("mkcase %s %s %s %s %s", coqList(vterms), requested, coqList(pterms), coqList(wterms), coqList(earlyTerms))
+	obs := map[string]interface{}{"versions": vs, "probes": pobs, "writes": wobs, "early_writes": earlyObs}
 	return Case{Coq: term, Obs: obs, Tags: tags, NonTrivial: keyed, Key: string(raw)}
 }
